@@ -571,19 +571,32 @@ UriBool URI_FUNC(FixAmbiguity)(URI_TYPE(Uri) * uri,
 		return URI_TRUE;
 	}
 
-	if (	/* Case 1: absolute path, empty first segment, more segments: "//..." */
-			(uri->absolutePath
+	/* One representation per path text, the one the parser produces:
+	 * a rootless path with an empty first segment reads "/..." i.e. it is
+	 * an absolute path, and a lone empty segment adds nothing to "/" or "".
+	 * NOTE: Empty segments do not own any text, so only the node is freed. */
+	if (!uri->absolutePath
 			&& (uri->pathHead != NULL)
 			&& (uri->pathHead->next != NULL)
-			&& (uri->pathHead->text.afterLast == uri->pathHead->text.first))
+			&& (uri->pathHead->text.afterLast == uri->pathHead->text.first)) {
+		segment = uri->pathHead;
+		uri->pathHead = segment->next;
+		memory->free(memory, segment);
+		uri->absolutePath = URI_TRUE;
+	}
+	if ((uri->pathHead != NULL)
+			&& (uri->pathHead->next == NULL)
+			&& (uri->pathHead->text.afterLast == uri->pathHead->text.first)) {
+		memory->free(memory, uri->pathHead);
+		uri->pathHead = NULL;
+		uri->pathTail = NULL;
+	}
 
-			/* Case 2: relative path, empty first and second segment, more segments: "//..." */
-			|| (!uri->absolutePath
+	/* Absolute path, empty first segment, more segments: "//..."? */
+	if (uri->absolutePath
 			&& (uri->pathHead != NULL)
 			&& (uri->pathHead->next != NULL)
-			&& (uri->pathHead->next->next != NULL)
-			&& (uri->pathHead->text.afterLast == uri->pathHead->text.first)
-			&& (uri->pathHead->next->text.afterLast == uri->pathHead->next->text.first))) {
+			&& (uri->pathHead->text.afterLast == uri->pathHead->text.first)) {
 		/* NOOP */
 	} else {
 		return URI_TRUE;
